@@ -21,7 +21,7 @@ TABLE = [
     ("mtsp", "sum", 3, 4),
     ("svrp", None, 3, 4),
     ("cvrptw", None, 3, 4),
-] + [("mtvrp", v, 3, 3) for v in ("", "O", "B", "L", "TW", "OTW", "OB", "OL", "BL", "BTW", "LTW", "OBL", "OBTW", "OLTW", "BLTW", "OBLTW")]
+] + [("mtvrp", v, 3, 3) for v in ("", "O", "B", "L", "TW", "OTW", "OB", "OL", "BL", "BTW", "LTW", "OBL", "OBTW", "OLTW", "BLTW", "OBLTW")] + [("mtvrp", "TW@2", 3, 3), ("mtvrp", "LTW@0.5", 2, 3)]  # '@k': generated with speed k (travel time = distance / speed)
 
 
 SELECTION = [("flp", None, 3, 4), ("mcp", None, 2, 3), ("dpp", None, 4, 9), ("mdpp", None, 4, 9)]
@@ -39,7 +39,7 @@ def plan(prop, tier, seed, B_quick=1):
             continue
         if prop == "C02":
             # mixed finished / unfinished rows need B=2; kept small in quick (rows finish at different steps from n=2 on)
-            small = max(2, nq - 1) if spec not in NO_GENERATOR else nq
+            small = max(2, nq - 1) if spec not in NO_GENERATOR and spec != "mtsp" else nq  # mTSP: fleets of different size differ in episode length only from n=3
             sizes = [(small, 2), (nq, 1)] if tier == "quick" else [(nq, 2), (nt, 1)]
             if spec == "mcp":
                 sizes = [(2, 2), (3, 1)]
